@@ -26,6 +26,7 @@ type config struct {
 	Two       bool   `json:"two_ssrcs"`
 	Long      int    `json:"long_stall_ticks,omitempty"`
 	SkipFirst bool   `json:"skip_option_before_size_option,omitempty"`
+	MaxFirst  bool   `json:"limit_option_before_size_option,omitempty"`
 	Syms      []int  `json:"symbols,omitempty"` // restricted alphabet (nil = all that stay within 2^15-1 of the highest)
 	First     int    `json:"first_symbol"`      // shard: histories that start with this symbol (-1: not sharded)
 }
@@ -216,6 +217,9 @@ func newSystem(c config) (*system, error) {
 	}
 	if c.SkipFirst {
 		opts[0], opts[1] = opts[1], opts[0] // options are documented as independent: their order must not matter
+	}
+	if c.MaxFirst && c.Max > 0 {
+		opts = append([]nack.GeneratorOption{opts[len(opts)-1]}, opts[:len(opts)-1]...)
 	}
 	f, err := nack.NewGeneratorInterceptor(opts...)
 	if err != nil {
@@ -548,6 +552,8 @@ func configs(tier string) []config {
 	for _, sf := range []bool{false, true} {
 		out = append(out, config{Size: 1024, Skip: 600, Max: 0, Start: 65000, Depth: deep - 2, SkipFirst: sf, Syms: []int{0, 1, 17, 18, 19, 9, 15, 16}})
 	}
+	// the per-packet limit given before the size option, a window of 1024 and jumps that leave more than 512 numbers missing
+	out = append(out, config{Size: 1024, Skip: 0, Max: 2, Start: 65000, Depth: 4, MaxFirst: true, Syms: []int{0, 1, 3, 4, 5, 9, 15, 16}})
 	// two SSRCs on one interceptor (product alphabet): independence
 	out = append(out, config{Size: 64, Skip: 0, Max: 1, Start: 65530, Depth: 3, Two: true})
 	if tier == "thorough" {
